@@ -92,6 +92,9 @@ FLOWS.update(TICK_FLOWS)
 # structural tokens of the surface syntax that are not operators of the emission table
 STRUCTURAL = {"handoff", "identity", "tee"}
 
+FLOWS["m_value_counts"] = F(["kv"], "keyed", props=("C33",))
+FLOWS["m_keyed_first"] = F(["kv"], "unord", props=("C33",))
+
 INPUT_NAMES = "abcd"
 
 # ---------------------------------------------------------------------------- Gallina printing
@@ -585,3 +588,39 @@ def gen_trusted_cases(rng, tier, flows):
                 c["base"] = c["ticks"]
                 cases.append(c)
     return cases
+
+
+# ---------------------------------------------------------------------------- C33: API -> bound table
+
+# public APIs whose return type promises a monotone / bounded-value collection, as
+# 'file::fn' -> associated type in the signature (scanned from the source on every run)
+BOUND_TABLE = {
+    "stream/mod.rs::count": "StreamToMonotone",
+    "keyed_stream/mod.rs::value_counts": "KeyedStreamToMonotone",
+    "keyed_stream/mod.rs::first": "WithBoundedValue",
+    "keyed_stream/mod.rs::fold_early_stop": "WithBoundedValue",
+    "keyed_stream/mod.rs::cast_at_most_one_entry_per_key": "WithBoundedValue",
+}
+_BOUND = re.compile(r"\b(StreamToMonotone|KeyedStreamToMonotone|WithBoundedValue)\b")
+
+
+def bound_check():
+    base = os.path.join(REPO, "hydro_lang/src/live_collections")
+    found = {}
+    for rel in ("stream/mod.rs", "keyed_stream/mod.rs", "keyed_singleton.rs", "singleton.rs", "optional.rs"):
+        src = open(os.path.join(base, rel), errors="replace").read()
+        # function signatures: from `fn name` to the opening brace of the body
+        for m in re.finditer(r"\bfn\s+(\w+)\s*(<[^{;]*?>)?\s*\(([^{;]*?)\)\s*->\s*([^{;]*?)\s*(where[^{;]*)?\{", src, re.S):
+            ret = m.group(4)
+            b = _BOUND.search(ret)
+            if b:
+                found["%s::%s" % (rel, m.group(1))] = b.group(1)
+    problems = []
+    for k, v in found.items():
+        if BOUND_TABLE.get(k) != v:
+            problems.append("API %s returns a %s collection but is not in the modelled bound table" % (k, v))
+    for k, v in BOUND_TABLE.items():
+        if found.get(k) != v:
+            problems.append("modelled bound %s -> %s no longer matches the source (%s)" % (k, v, found.get(k)))
+    rows = [{"api": k, "bound": v, "modelled": BOUND_TABLE.get(k) == v} for k, v in sorted(found.items())]
+    return rows, problems
